@@ -143,6 +143,7 @@ class Program:
         self.root = os.path.abspath(root)
         self.modules: Dict[str, ModuleInfo] = {}
         self.inlined: Dict[str, List[str]] = {}
+        self.pruned: List[str] = []
         self.parse_failures: List[str] = []
         src = os.path.join(self.root, self.SRC_SUBDIR)
         if not os.path.isdir(src):
@@ -153,6 +154,12 @@ class Program:
             p = os.path.join(self.root, d)
             if os.path.isdir(p):
                 self._load_dir(p, d.replace(os.sep, "."), into=self.extra)
+        if self.inlined:
+            from . import inline
+
+            self.pruned = inline.prune_dead_helpers({n: m.tree for n, m in self.modules.items()})
+        for m in list(self.modules.values()) + list(self.extra.values()):
+            _set_parents(m.tree)
         self._index()
 
     # ------------------------------------------------------------------
@@ -184,7 +191,6 @@ class Program:
                         raise AnalysisError(f"helper expansion failed in {name}: {e}")
                     if n_inl:
                         self.inlined[name] = sites
-                _set_parents(tree)
                 into[name] = ModuleInfo(
                     name=name, path=path, rel=os.path.relpath(path, self.root), tree=tree, source=source
                 )
